@@ -4,6 +4,7 @@ go 1.23
 
 require (
 	github.com/jirenius/timerqueue v1.0.0
+	github.com/posener/wstest v1.2.0
 	github.com/resgateio/resgate v0.0.0
 )
 
